@@ -46,8 +46,25 @@ def staged_call(variant):
     return call
 
 
+INT_TYPES = [np.int64, np.int32, np.int16]
+
+
+def as_recorded_dtype(case):
+    """Recordings often arrive as integer counts: when every sample of the case is an integer that fits, every fourth case hands the SAME values
+    to the library as an integer-typed array (int64 / int32 / int16).  The specification sees the values, not the dtype."""
+    k = case.get('k', 0)
+    if k % 4 != 1 or case['e'] < 0 or case['e'] > 40:
+        return case
+    vals = case['q'].astype(np.int64) * (1 << int(case['e']))
+    dt = INT_TYPES[(k // 4) % 3]
+    if np.abs(vals).max(initial=0) > np.iinfo(dt).max // 8 or np.abs(case['q']).max(initial=0) >= 2 ** 20:
+        return case
+    return dict(case, sig=vals.astype(dt), sig_dtype=np.dtype(dt).name)
+
+
 def _rec_one(args):
     case, via_object = args
+    case = as_recorded_dtype(case)
     call = None
     if not via_object and case.get('k', 0) % 5 == 2:
         call = staged_call(case['k'] // 5)
@@ -133,34 +150,15 @@ def run_corpus(ctx, n_cases, prefixes, seed_offset=0, kinds=None, max_len=900, v
     for case, rec in list(zip(cases, recs))[:2]:
         ctx.sample(case_brief(case, rec))
     ctx.parts.append({'part': 'corpus.' + label, 'cases': len(recs), 'option_cells_hit': len(cells),
-                      'raised': sum(1 for r in recs if r['raised']), 'kinds': sorted({c['kind'] for c in cases}),
+                      'raised': sum(1 for r in recs if r['raised']), 'integer_typed_signals': sum(1 for c in cases if as_recorded_dtype(c) is not c),
+                      'through_stage_functions': sum(1 for c in cases if not c.get('via_object') and c.get('k', 0) % 5 == 2), 'kinds': sorted({c['kind'] for c in cases}),
                       'rows_total': sum(len(r['rows']) for r in recs)})
     return cases, recs, verdicts
 
 
-LONG_CYCLE_BANDS = [(1000, (4, 8)), (1024, (3, 6)), (2000, (8, 12)), (1000, (2, 5))]      # >= 128 samples per cycle
-LONG_RECORDING_BANDS = [(1000, (13, 30)), (500, (8, 12)), (1024, (8, 12))]
-
-
 def run_large(ctx, prefixes, seed_offset, n_long_cycles, n_long_recordings, mutate_opts=None, kinds=None):
-    """Beyond small scopes: cycles of more than 128 / 256 samples (counts per cycle outgrow 8-bit integers), and recordings of more than
-    2**15 / 2**16 samples with hundreds to thousands of cycles (sample indices and row counts outgrow 16-bit integers; tables whose positions
-    run into the thousands).  Same recording, same Trace_Pipeline clauses - only the size of the structures differs."""
-    rng = np.random.default_rng(ctx.seed * 1000 + 500 + seed_offset)
-    kinds = kinds or ['sine_bursts', 'asym', 'powerlaw_osc', 'two_osc', 'quantised']
-    cases = []
-    for i in range(n_long_cycles + n_long_recordings):
-        long_rec = i >= n_long_cycles
-        fs, fr = (LONG_RECORDING_BANDS if long_rec else LONG_CYCLE_BANDS)[int(rng.integers(0, 3 if long_rec else 4))]
-        n = int(rng.choice([33500, 40000, 66500])) if long_rec else int(rng.integers(9, 14) * fs / fr[0])
-        kind = kinds[int(rng.integers(0, len(kinds)))]
-        k = int(rng.integers(0, 1000))
-        opts = gen.option_set(rng, fs, fr, k)
-        if (opts.get('find_extrema_kwargs') or {}).get('boundary', 0) > fs // 4:
-            opts['find_extrema_kwargs']['boundary'] = 5
-        x = gen.waveform(rng, kind, n, fs, fr)
-        q, e = gen.to_grid(rng, x, kind)
-        cases.append({'q': q, 'e': e, 'sig': q.astype(float) * (2.0 ** e), 'fs': fs, 'f_range': fr, 'kind': kind, 'opts': opts, 'k': k})
+    """Beyond small scopes (gen.large_cases): same recording, same Trace_Pipeline clauses - only the size of the structures differs."""
+    cases = gen.large_cases(ctx.seed * 1000 + 500 + seed_offset, n_long_cycles, n_long_recordings, kinds)
     return run_corpus(ctx, len(cases), prefixes, mutate_opts=mutate_opts, label='large', cases=cases)
 
 
